@@ -29,8 +29,16 @@ def positions(rng, text, n):
     """token starts, inside tokens, line ends, one past the line end, past the last line, huge values"""
     spans = lspmodel.line_spans(text)
     out = []
+    import re, bisect
+    idents = [m.start() for m in re.finditer(r"[A-Za-z_][A-Za-z_0-9]*", text)] if rng.random() < .5 else []
+    starts = [sp[0] for sp in spans]
     for _ in range(n):
         c = rng.random()
+        if idents and rng.random() < .4:
+            # on an identifier (name resolution is where most position-dependent code lives), often one of the last of the document
+            i = rng.choice(idents[-6:]) if rng.random() < .4 else rng.choice(idents)
+            line = max(0, bisect.bisect_right(starts, i) - 1)
+            out.append({"line": line, "character": sum(2 if ord(ch) > 0xFFFF else 1 for ch in text[starts[line]:i]) + rng.choice([0, 0, 1])}); continue
         line = rng.randrange(len(spans)); a, e, _x = spans[line]
         width = sum(2 if ord(ch) > 0xFFFF else 1 for ch in text[a:e])
         if c < .6: col = rng.randint(0, width)
